@@ -338,6 +338,14 @@ func PublishContext[T any](bus *EventBus, ctx context.Context, event T) {
 			}
 		}
 
+		// A handler that is skipped because the context is already cancelled
+		// must not be consumed: check before claiming a once handler
+		select {
+		case <-ctx.Done():
+			continue
+		default:
+		}
+
 		// For once handlers, use CompareAndSwap to ensure atomic execution
 		if h.once {
 			if !atomic.CompareAndSwapUint32(&h.executed, 0, 1) {
